@@ -268,6 +268,17 @@ StepResult(st, o, c, sc) ==
                ELSE IF o.races # <<>> THEN "data race inside the library: " \o ToJson(o.races)
                ELSE IF bad # {} THEN "thread " \o ToString(CHOOSE j \in bad : TRUE) \o " did not observe the sequential result; expected output: " \o ideal.out
                ELSE ""]
+    [] st.op = "capithreads" ->
+         \* C14 through the C API: every thread runs its own failing executable in its own clone and must read ITS error
+         [C |-> c, why |->
+            IF o.oc # "ok" THEN "the executables were not compiled: " \o o.oc
+            ELSE IF Len(o.per) # st.n THEN "missing thread results"
+            ELSE IF o.races # <<>> THEN "data race inside the library: " \o ToJson(o.races)
+            ELSE IF \E j \in DOMAIN o.per : o.per[j].okruns # 0 THEN "a failing program was reported as successful"
+            ELSE IF \E j \in DOMAIN o.per : o.per[j].bad_no # 0 THEN "a thread read an error code that is not the one of its own error"
+            ELSE IF \E j \in DOMAIN o.per : o.per[j].bad_msg # 0
+              THEN "a thread read an error message that is not its own: " \o o.per[CHOOSE j \in DOMAIN o.per : o.per[j].bad_msg # 0].first
+            ELSE ""]
     [] st.op = "readfile" ->
          \* an independent reader of the file the script wrote: the stored bytes are those the specification says
          [C |-> c, why |-> IF ~o.exists THEN "the file does not exist" ELSE IF o.bytes # st.want THEN "the file holds " \o ToJson(o.bytes) \o ", the specification says " \o ToJson(st.want) ELSE ""]
